@@ -30,7 +30,7 @@ SIM_NOTE = ("Trusted base: the in-memory socket/select model of vlib/simnet.py (
 
 add("C01", "simnet", "model-based property testing (Hypothesis-generated histories + schedules against a reference router)",
     "Generated client histories and manager schedules; after every select round each live connection must have received "
-    "exactly the multiset of published frames the reference model predicts, field- and byte-identical. Exploration level: "
+    "exactly the multiset of published frames the reference model predicts, field- and byte-identical (profiles with refused / second-instance connects and with publishes that leave the source id 0). Exploration level: "
     "strong evidence over tens of thousands of histories, no proof of absence.", SIM_NOTE, "DESIGN.md 4 C01")
 
 add("C05", "simnet", "model-based property testing (generated publisher interleavings; stream-framing, sequence-number and order invariants)",
@@ -54,7 +54,7 @@ add("C19", "simnet", "model-based property testing (generated control/data histo
 add("C02", "simnet", "stateful property testing of the real Client against the real manager (probe-based delivered-set oracle) + exhaustive enumeration of the 3-type abstract state space",
     "Real pyrtma.Client on the simulated network; after every API call a probe publishes one message per type and the delivered set read "
     "from the client's connection must equal the reported subscribed set, exclude paused types, be unchanged by refused requests and be "
-    "restored after scoped contexts (left normally or by an exception). Type ids are also mapped onto the ends of the defined range and of int32. The sub-domain (28 reachable abstract states over 3 types + ALL) x 9 operations x argument lists of "
+    "restored after scoped contexts (left normally or by an exception), also while the manager is momentarily not reading (send waits with a finite timeout expire). Type ids are also mapped onto the ends of the defined range and of int32. The sub-domain (28 reachable abstract states over 3 types + ALL) x 9 operations x argument lists of "
     "<=3 entries is enumerated completely in both tiers; longer histories over 6 types are sampled. Exploration level.",
     SIM_NOTE + " The client's module-level socket/select/time names are substituted the same way.", "DESIGN.md 4 C02")
 add("C06", "simnet", "model-based property testing + exhaustive enumeration of connect pairs + generated id-churn + wire capture of the public entry points",
@@ -88,7 +88,7 @@ add("C10", "msgpbt", "round-trip property testing (bytes / dict / JSON / Message
 
 add("C08", "scripted-peer", "model-based property testing of Client.read_message against a reference reader on a real socket pair; exhaustive adjacency and disconnect-offset tables + generated scripts",
     "A real pyrtma.Client on socketpair()/loopback TCP reads scripted frame sequences (good, unsubscribed, ACK, unknown type, wrong size, "
-    "wrong version, zero length, an older-style local definition without a hash) with subscription changes between reads; a reference reader written from the documentation decides what "
+    "wrong version, zero length, an older-style local definition without a hash) with subscription changes and re-registrations of a type's definition between reads; a reference reader written from the documentation decides what "
     "each call must return or raise, byte-exactly; all ordered pairs/triples of frame kinds and every disconnect byte offset are "
     "enumerated, longer scripts are generated. Exploration level.",
     "Trusted base: the kernel's AF_UNIX/TCP stream sockets, the reference reader in checks/c08.py, Hypothesis. The client's _sock and "
